@@ -20,10 +20,13 @@ MAX_PATHS = 200000
 
 
 class Val:
-    __slots__ = ('kind', 'ent')
+    """kind + k-mer-parameter entity (`ent`) + provenance (`prov`): which sequence the value is index-aligned with / which object it is.
+    prov: ('obj', <source>) the stored order of a loaded / database signature object; ('files', <options>) the file order of one
+    get_sequence_files call; ('param', name) an untouched command parameter; for a record the field names."""
+    __slots__ = ('kind', 'ent', 'prov')
 
-    def __init__(self, kind, ent=None):
-        self.kind, self.ent = kind, ent
+    def __init__(self, kind, ent=None, prov=None):
+        self.kind, self.ent, self.prov = kind, ent, prov
 
     def __repr__(self):
         return self.kind if self.ent is None else f'{self.kind}:{self.ent}'
@@ -80,6 +83,7 @@ class Interp:
         self.loops = []       # continue / break collectors of the loops being interpreted (innermost last)
         self.receivers = {}   # id(call) -> abstract value of the receiver of an inlined method call
         self.calcs = []       # (call, parameter entity, state) of every calc_file_signatures evaluation
+        self.dumps = []       # (call, [file, matrix, row ids, column ids] values, state) of every dump_dmat_csv evaluation
 
     # ------------------------------------------------------------------ helper inlining
     def inlinable(self, call, st=None):
@@ -88,6 +92,7 @@ class Interp:
         target = None
         r = self.m.resolve_call(self.fi, call)
         recv = None
+        record_ctor = False
         if isinstance(call.func, ast.Attribute) and st is not None and not (r in self.m.functions and self.m.functions[r].cls is None):
             # method call: followed when the receiver is the CLI context object (its class is looked up through the MRO)
             rv = self.ev(call.func.value, st)
@@ -96,6 +101,15 @@ class Interp:
                 mi = self.m.functions.get(mi) if isinstance(mi, str) else mi
                 if mi is not None and mi.qualname not in NO_INLINE and not any(isinstance(d, ast.Name) and d.id == 'property' for d in mi.decorators):
                     target, recv = mi, rv
+        if target is None and r in self.m.functions and r.startswith('gambit.cli.') and r not in NO_INLINE and self.m.functions[r].cls is not None \
+                and isinstance(call.func, ast.Attribute) and self.m.resolve(self.fi.module, call.func.value) == self.m.functions[r].cls.qualname:
+            # Class.method(...): a classmethod (cls bound to the class) or a staticmethod of a class of the package
+            decos = {d.id for d in self.m.functions[r].decorators if isinstance(d, ast.Name)}
+            if decos & {'classmethod', 'staticmethod'}:
+                target = self.m.functions[r]
+                recv = Val('cls', target.cls.qualname) if 'classmethod' in decos else None
+                if self.record_class(target.cls.qualname) is not None:
+                    record_ctor = True
         if target is None and r in self.m.functions and r.startswith('gambit.cli.') and r not in NO_INLINE and self.m.functions[r].cls is None:
             target = self.m.functions[r]
         elif target is None and isinstance(call.func, ast.Name):
@@ -108,7 +122,7 @@ class Interp:
         if any(isinstance(a, ast.Starred) for a in call.args) or any(k.arg is None for k in call.keywords):
             return None
         src = ast.unparse(target.node)
-        relevant = any(w in src for w in RELEVANT_WORDS) or recv is not None
+        relevant = any(w in src for w in RELEVANT_WORDS) or (recv is not None and recv.kind == 'ctxobj') or record_ctor
         if not relevant and st is not None:
             vals = [self.ev(a, st) for a in call.args] + [self.ev(k.value, st) for k in call.keywords]
             relevant = any(v.kind in ('sig', 'kspec', 'kspec?', 'db', 'ctxobj') or (v.kind == 'seq' and any(x.kind in ('sig', 'kspec', 'kspec?') for x in v.ent)) for v in vals)
@@ -172,6 +186,39 @@ class Interp:
     def resolve(self, call):
         return self.m.resolve_call(self.fi, call) or (callee(call) or '')
 
+    def opt_tag(self, e, st):
+        """how an argument identifies an input: the command parameter it is (also through helper parameters), else its text"""
+        v = self.ev(e, st)
+        return v.prov[1] if v.prov is not None and v.prov[0] == 'param' else None
+
+    def record_class(self, q):
+        """field names of a typing.NamedTuple class of the package, else None: field i of a constructed value is argument i"""
+        ci = self.m.classes.get(q)
+        if ci is None or 'typing.NamedTuple' not in ci.bases:
+            return None
+        return tuple(ci.annotations)
+
+    def construct(self, q, call, st):
+        fields = self.record_class(q)
+        if fields is None or any(isinstance(a, ast.Starred) for a in call.args) or any(k.arg is None for k in call.keywords) or len(call.args) > len(fields):
+            return None
+        ci = self.m.classes[q]
+        vals = {}
+        for n, a in zip(fields, call.args):
+            vals[n] = self.ev(a, st)
+        for k in call.keywords:
+            if k.arg not in fields or k.arg in vals:
+                return None
+            vals[k.arg] = self.ev(k.value, st)
+        for n in fields:
+            if n not in vals:
+                d = ci.class_attrs.get(n)
+                dv = getattr(d, 'value', None)
+                if dv is None:
+                    return None
+                vals[n] = self.ev(dv, st)
+        return Val('rec', tuple(vals[n] for n in fields), fields)
+
     def ev(self, e, st):
         if isinstance(e, ast.Constant):
             if e.value is None:
@@ -189,6 +236,12 @@ class Interp:
             if self.m.resolve(self.fi.module, e) == 'gambit.kmers.DEFAULT_KMERSPEC':
                 return Val('kspec', 'DEFAULT')
             base = self.ev(e.value, st)
+            if base.kind == 'rec':
+                if e.attr in base.prov:
+                    return base.ent[base.prov.index(e.attr)]
+                raise Undecided(f'{self.fi.qualname}: attribute {e.attr} of a record with fields {base.prov} at line {e.lineno}')
+            if e.attr == 'ids' and base.kind == 'sig':
+                return Val('ids', None, base.prov)
             if e.attr == 'kmerspec':
                 if base.kind == 'sig':
                     return Val('kspec', base.ent)
@@ -196,7 +249,7 @@ class Interp:
                     raise Undecided(f'{self.fi.qualname}: .kmerspec of None at line {e.lineno}')
                 return OTHER
             if e.attr == 'signatures' and (base.kind in ('db', 'ctxobj')):
-                return Val('sig', 'DB')
+                return Val('sig', 'DB', ('obj', 'DB'))
             if e.attr == 'obj' and base.kind == 'ctx':
                 return Val('ctxobj')
             if e.attr == 'obj' and u(e.value) == 'ctx':
@@ -206,12 +259,34 @@ class Interp:
             if ('call', id(e)) in st.env:
                 return st.env[('call', id(e))]
             f = self.resolve(e)
+            if isinstance(e.func, ast.Name) and st.env.get(e.func.id, UNKNOWN).kind == 'cls':
+                r_ = self.construct(st.env[e.func.id].ent, e, st)           # cls(...) inside a classmethod constructor
+                if r_ is not None:
+                    return r_
+            if f in self.m.classes:
+                r_ = self.construct(f, e, st)
+                if r_ is not None:
+                    return r_
             if f.endswith('load_signatures'):
-                tag = u(e.args[0]) if e.args else '?'
-                if self.callsites:
+                tag = (self.opt_tag(e.args[0], st) or u(e.args[0])) if e.args else '?'
+                if self.callsites and not (e.args and self.opt_tag(e.args[0], st)):
                     # a load inside an inlined helper is a distinct entity per call site of the helper
                     tag = f'{tag} in ' + ' > '.join(self.callsites)
-                return Val('sig', f'load:{tag}')
+                return Val('sig', f'load:{tag}', ('obj', f'load:{tag}'))
+            if f == 'gambit.cli.common.check_params_group':
+                names_, excl_ = get_arg(e, 1, 'names'), get_arg(e, 2, 'exclusive')
+                if isinstance(names_, (ast.List, ast.Tuple)) and all(isinstance(x, ast.Constant) and isinstance(x.value, str) for x in names_.elts) and isinstance(excl_, ast.AST) and is_const(excl_, True):
+                    st.env[('group', id(e))] = Val('group', tuple(x.value for x in names_.elts))     # at most one of these options is given beyond this call
+            if u(e.func) == 'next' and 1 <= len(e.args) <= 2 and not e.keywords:
+                it_ = self.ev(e.args[0], st)
+                if it_.kind == 'gen':
+                    if it_.ent:
+                        if isinstance(e.args[0], ast.Name):
+                            st.env[e.args[0].id] = Val('gen', it_.ent[1:])          # consumed
+                        return it_.ent[0]
+                    if len(e.args) == 2:
+                        return self.ev(e.args[1], st)
+                    raise Undecided(f'{self.fi.qualname}: next() of an exhausted generator without default at line {e.lineno}')
             if f.endswith('get_database'):
                 return Val('db', 'DB')
             if f == 'gambit.db.refdb.ReferenceDatabase' or f.endswith('.ReferenceDatabase'):
@@ -228,17 +303,38 @@ class Interp:
                 if k.kind != 'kspec':
                     raise Undecided(f'{self.fi.qualname}: calc_file_signatures called with {k} at line {e.lineno}')
                 self.calcs.append((e, k.ent, st))
-                return Val('sig', k.ent)
+                fa = get_arg(e, 1, 'files')
+                fv = self.ev(fa, st) if isinstance(fa, ast.AST) else UNKNOWN
+                return Val('sig', k.ent, fv.prov if fv.kind == 'files' else None)     # in the order of the files (C13)
             if f.endswith('AnnotatedSignatures') and e.args:
                 return self.ev(e.args[0], st)
             if f.endswith('get_sequence_files'):
-                return Val('tuple')
+                tags = [self.opt_tag(a, st) or u(a) for a in e.args if not isinstance(a, ast.Starred)] + [f'{k.arg}={self.opt_tag(k.value, st) or u(k.value)}' for k in e.keywords]
+                pv = ('files', ', '.join(tags))
+                return Val('seq', (Val('ids', None, pv), Val('files', None, pv)))          # the aligned (ids, files) pair of one call (C08-A1)
+            if f == 'gambit.seq.SequenceFile.from_paths' and e.args:
+                fv = self.ev(e.args[0], st)
+                return fv if fv.kind == 'files' else OTHER                                # one file object per path, in order (C08-A1)
+            if u(e.func) in ('list', 'tuple') and len(e.args) == 1 and not e.keywords:
+                fv = self.ev(e.args[0], st)
+                if fv.kind in ('ids', 'files'):
+                    return fv
+            if u(e.func) in ('sorted', 'reversed', 'set', 'frozenset') and e.args:
+                fv = self.ev(e.args[0], st)
+                if fv.kind in ('ids', 'files'):
+                    return Val(fv.kind, None, ('reordered', f'{u(e.func)}() of {fv.prov}'))      # no longer in the order of its source
             if f == 'gambit.metric.jaccarddist_matrix':
-                self.sink(e, f, st, [self.ev(get_arg(e, 0, 'queries'), st), self.ev(get_arg(e, 1, 'refs'), st)])
-                return OTHER
+                ops = [self.ev(get_arg(e, 0, 'queries'), st), self.ev(get_arg(e, 1, 'refs'), st)]
+                self.sink(e, f, st, ops)
+                return Val('mat', ('matrix', ops[0].prov, ops[1].prov))
             if f == 'gambit.metric.jaccarddist_pairwise':
-                self.sink(e, f, st, [self.ev(get_arg(e, 0, 'sigs'), st)])
-                return OTHER
+                ops = [self.ev(get_arg(e, 0, 'sigs'), st)]
+                self.sink(e, f, st, ops)
+                return Val('mat', ('pairwise', ops[0].prov, ops[0].prov))
+            if f == 'gambit.cluster.dump_dmat_csv':
+                names = ['file', 'dmat', 'row_ids', 'col_ids']
+                av = [get_arg(e, i, n) for i, n in enumerate(names)]
+                self.dumps.append((e, [self.ev(a, st) if isinstance(a, ast.AST) else UNKNOWN for a in av], st))
             if f == 'gambit.query.query':
                 self.sink(e, f, st, [Val('sig', 'DB'), self.ev(get_arg(e, 1, 'queries'), st)])
                 return OTHER
@@ -257,6 +353,40 @@ class Interp:
             return OTHER
         if isinstance(e, ast.IfExp):
             return st.env.get(('call', id(e)), OTHER)
+        if isinstance(e, ast.Subscript):
+            bv = self.ev(e.value, st)
+            if bv.kind in ('seq', 'rec') and isinstance(e.slice, ast.Constant) and isinstance(e.slice.value, int) and -len(bv.ent) <= e.slice.value < len(bv.ent):
+                return bv.ent[e.slice.value]
+            if bv.kind in ('ids', 'files', 'sig') and bv.prov is not None:
+                if isinstance(e.slice, ast.Slice):
+                    return Val(bv.kind, bv.ent, ('reordered', f'slice {u(e.slice)} of {bv.prov}'))      # a selection: not index-aligned with the whole
+                return OTHER
+            self.ev(e.slice, st) if not isinstance(e.slice, ast.Slice) else None
+            return OTHER
+        if isinstance(e, (ast.GeneratorExp, ast.ListComp)) and len(e.generators) == 1:
+            # a comprehension over a literal sequence is the sequence of its instances (filters must be decided in this state)
+            g = e.generators[0]
+            src_ = self.ev(g.iter, st)
+            if src_.kind in ('seq', 'gen'):
+                out, ok_ = [], True
+                for x in src_.ent:
+                    s1 = st.copy()
+                    self.bind(g.target, x, s1)
+                    keep = True
+                    for c in g.ifs:
+                        outcomes = self.cond(c, s1)
+                        if len(outcomes) != 1:
+                            ok_ = False
+                            break
+                        keep = keep and outcomes[0][0]
+                        s1 = outcomes[0][1]
+                    if not ok_:
+                        break
+                    if keep:
+                        out.append(self.ev(e.elt, s1))
+                if ok_:
+                    return Val('gen' if isinstance(e, ast.GeneratorExp) else 'seq', tuple(out))
+            return OTHER
         if isinstance(e, (ast.Tuple, ast.List)):
             vals = [self.ev(x.value if isinstance(x, ast.Starred) else x, st) for x in e.elts]
             if any(isinstance(x, ast.Starred) for x in e.elts):
@@ -326,7 +456,7 @@ class Interp:
             st.env[target.id] = val
         elif isinstance(target, (ast.Tuple, ast.List)):
             elts = target.elts
-            if val.kind == 'seq' and len(val.ent) == len(elts) and not any(isinstance(t, ast.Starred) for t in elts):
+            if val.kind in ('seq', 'rec') and len(val.ent) == len(elts) and not any(isinstance(t, ast.Starred) for t in elts):
                 for t, v in zip(elts, val.ent):
                     self.bind(t, v, st)
             else:
@@ -580,7 +710,7 @@ class Interp:
     def run(self):
         st = State()
         for a in self.fi.node.args.args + self.fi.node.args.kwonlyargs:
-            st.env[a.arg] = UNKNOWN
+            st.env[a.arg] = Val('unknown', None, ('param', a.arg))
         ends = self.block(self.fi.node.body, [st])
         self.paths += len(ends)
         return self
@@ -590,10 +720,12 @@ class Interp:
 class OV:
     """Value of the option-table evaluator: none | given:<param> | const:<python value> | default (DEFAULT_KMERSPEC) |
     kmerspec:(args) | opaque (text, parameters it derives from)."""
-    __slots__ = ('kind', 'v', 'deps')
+    __slots__ = ('kind', 'v', 'deps', 'unk')
 
-    def __init__(self, kind, v=None, deps=frozenset()):
-        self.kind, self.v, self.deps = kind, v, frozenset(deps)
+    def __init__(self, kind, v=None, deps=frozenset(), unk=False):
+        # deps: the parameters the value derives from; unk: an opaque value computed from something the evaluator knew (a None, a
+        # None-test, a count of them, a flag): the knowledge is lost, a test on it is not a property of the function but a gap of the domain
+        self.kind, self.v, self.deps, self.unk = kind, v, frozenset(deps), unk
 
     def __repr__(self):
         if self.kind == 'kmerspec':
@@ -606,7 +738,16 @@ class OV:
             return 'DEFAULT_KMERSPEC'
         if self.kind == 'given':
             return f'<{self.v}>'
+        if self.kind == 'tuple':
+            return '(' + ', '.join(map(repr, self.v)) + ')'
         return f'<value from {sorted(self.deps)}>' if self.deps else '<value>'
+
+
+class _OptRaise(Exception):
+    """an expression that raises for these operands (None < 5, len(None), None.attr)"""
+
+    def __init__(self, cls):
+        self.cls = cls
 
 
 class OptionTable:
@@ -617,11 +758,34 @@ class OptionTable:
     def __init__(self, m, fi):
         self.m, self.fi = m, fi
 
+    @staticmethod
+    def informed(v):
+        return v.unk or (v.kind in ('none', 'const', 'tuple') and bool(v.deps))
+
     def opaque(self, e, *vals):
         deps = set()
         for v in vals:
             deps |= v.deps
-        return OV('opaque', u(e)[:40], deps)
+        return OV('opaque', u(e)[:40], deps, unk=any(self.informed(v) for v in vals))
+
+    def const(self, value, *vals):
+        deps = set()
+        for v in vals:
+            deps |= v.deps
+        return OV('const', value, deps)
+
+    def elements(self, v):
+        """the element values of a literal sequence value, else None"""
+        if v.kind == 'tuple':
+            return list(v.v)
+        if v.kind == 'const' and isinstance(v.v, tuple):
+            return [OV('const', x, v.deps) for x in v.v]
+        return None
+
+    def sequence(self, vals):
+        if all(v.kind == 'const' for v in vals):
+            return self.const(tuple(v.v for v in vals), *vals)
+        return OV('tuple', tuple(vals), set().union(*[v.deps for v in vals]) if vals else ())
 
     def ev(self, e, env):
         if isinstance(e, ast.Constant):
@@ -635,10 +799,14 @@ class OptionTable:
         if isinstance(e, ast.Attribute):
             if self.m.resolve(self.fi.module, e) == 'gambit.kmers.DEFAULT_KMERSPEC':
                 return OV('default')
-            return self.opaque(e, self.ev(e.value, env))
+            b = self.ev(e.value, env)
+            if b.kind == 'none':
+                raise _OptRaise('AttributeError')
+            return self.opaque(e, b)
         if isinstance(e, ast.UnaryOp) and isinstance(e.op, ast.Not):
-            t = self.truth(self.ev(e.operand, env))
-            return OV('const', not t) if t is not None else self.opaque(e, self.ev(e.operand, env))
+            ov = self.ev(e.operand, env)
+            t = self.truth(ov)
+            return self.const(not t, ov) if t is not None else self.opaque(e, ov)
         if isinstance(e, ast.BoolOp):
             is_and = isinstance(e.op, ast.And)
             seen = []
@@ -656,18 +824,22 @@ class OptionTable:
             if isinstance(op, (ast.Is, ast.IsNot)) and 'none' in (l.kind, r.kind):
                 o = r if l.kind == 'none' else l
                 if o.kind != 'opaque':
-                    return OV('const', (o.kind == 'none') == isinstance(op, ast.Is))
+                    return self.const((o.kind == 'none') == isinstance(op, ast.Is), l, r)
+            if isinstance(op, (ast.Lt, ast.LtE, ast.Gt, ast.GtE)) and 'none' in (l.kind, r.kind) and 'opaque' not in (l.kind, r.kind):
+                raise _OptRaise('TypeError')           # None is not ordered
             if l.kind == r.kind == 'const':
                 try:
-                    return OV('const', {ast.Eq: l.v == r.v, ast.NotEq: l.v != r.v, ast.Lt: l.v < r.v, ast.LtE: l.v <= r.v, ast.Gt: l.v > r.v, ast.GtE: l.v >= r.v,
-                                        ast.Is: l.v is r.v, ast.IsNot: l.v is not r.v}[type(op)])
+                    return self.const({ast.Eq: l.v == r.v, ast.NotEq: l.v != r.v, ast.Lt: l.v < r.v, ast.LtE: l.v <= r.v, ast.Gt: l.v > r.v, ast.GtE: l.v >= r.v,
+                                        ast.Is: l.v is r.v, ast.IsNot: l.v is not r.v}[type(op)], l, r)
                 except (KeyError, TypeError):
                     pass
             return self.opaque(e, l, r)
         if isinstance(e, ast.BinOp):
             l, r = self.ev(e.left, env), self.ev(e.right, env)
             if l.kind == r.kind == 'const' and isinstance(l.v, (bool, int)) and isinstance(r.v, (bool, int)) and isinstance(e.op, (ast.Add, ast.Sub, ast.Mult)):
-                return OV('const', l.v + r.v if isinstance(e.op, ast.Add) else l.v - r.v if isinstance(e.op, ast.Sub) else l.v * r.v)
+                return self.const(l.v + r.v if isinstance(e.op, ast.Add) else l.v - r.v if isinstance(e.op, ast.Sub) else l.v * r.v, l, r)
+            if 'none' in (l.kind, r.kind) and 'opaque' not in (l.kind, r.kind):
+                raise _OptRaise('TypeError')
             return self.opaque(e, l, r)
         if isinstance(e, ast.IfExp):
             tv = self.ev(e.test, env)
@@ -680,19 +852,47 @@ class OptionTable:
             f = self.m.resolve_call(self.fi, e) or ''
             if f == 'gambit.kmers.KmerSpec' and not e.keywords and not any(isinstance(a, ast.Starred) for a in e.args):
                 return OV('kmerspec', tuple(args), set().union(*[a.deps for a in args]) if args else ())
-            if u(e.func) in ('int', 'bool', 'sum', 'len') and all(a.kind == 'const' for a in args) and len(args) == 1 and u(e.func) != 'len':
-                try:
-                    return OV('const', {'int': int, 'bool': bool, 'sum': sum}[u(e.func)](args[0].v))
-                except Exception:
-                    pass
+            fn_ = u(e.func)
+            if fn_ in ('int', 'bool', 'sum', 'len', 'any', 'all', 'min', 'max', 'tuple', 'list') and len(args) == 1 and not e.keywords:
+                a = args[0]
+                if fn_ == 'len' and a.kind == 'none':
+                    raise _OptRaise('TypeError')
+                els = self.elements(a)
+                if fn_ in ('tuple', 'list') and els is not None:
+                    return self.sequence(els)
+                if fn_ == 'len' and els is not None:
+                    return self.const(len(els))
+                if a.kind == 'const':
+                    try:
+                        return self.const({'int': int, 'bool': bool, 'sum': sum, 'len': len, 'any': any, 'all': all, 'min': min, 'max': max}[fn_](a.v), a)
+                    except Exception:
+                        pass
             base = [self.ev(e.func.value, env)] if isinstance(e.func, ast.Attribute) else []
             return self.opaque(e, *args, *base)
         if isinstance(e, (ast.Tuple, ast.List)):
             vals = [self.ev(x, env) for x in e.elts if not isinstance(x, ast.Starred)]
-            if len(vals) == len(e.elts) and all(v.kind == 'const' for v in vals):
-                return OV('const', tuple(v.v for v in vals))
+            if len(vals) == len(e.elts):
+                return self.sequence(vals)
             return self.opaque(e, *vals)
-        return OV('opaque', u(e)[:40], set().union(*[env[n.id].deps for n in ast.walk(e) if isinstance(n, ast.Name) and n.id in env]))
+        if isinstance(e, (ast.GeneratorExp, ast.ListComp)) and len(e.generators) == 1 and isinstance(e.generators[0].target, ast.Name):
+            # a comprehension over a literal sequence is the sequence of its instances
+            g = e.generators[0]
+            els = self.elements(self.ev(g.iter, env))
+            if els is not None:
+                out = []
+                for x in els:
+                    env2 = dict(env)
+                    env2[g.target.id] = x
+                    keep = [self.truth(self.ev(c, env2)) for c in g.ifs]
+                    if any(k is None for k in keep):
+                        out = None
+                        break
+                    if all(keep):
+                        out.append(self.ev(e.elt, env2))
+                if out is not None:
+                    return self.sequence(out)
+        inside = [env[n.id] for n in ast.walk(e) if isinstance(n, ast.Name) and n.id in env and isinstance(env[n.id], OV)]
+        return OV('opaque', u(e)[:40], set().union(*[v.deps for v in inside]) if inside else (), unk=any(self.informed(v) for v in inside))
 
     @staticmethod
     def truth(v):
@@ -703,8 +903,15 @@ class OptionTable:
         return None      # a given option value (0, '') / an object: not decided here
 
     def forks(self, test, env):
-        t = self.truth(self.ev(test, env))
-        return [t] if t is not None else [True, False]
+        """[(truth, env)]: both ways when the domain cannot decide; a test on a value whose knowledge was lost marks the path uncertain"""
+        v = self.ev(test, env)
+        t = self.truth(v)
+        if t is not None:
+            return [(t, env)]
+        if v.kind == 'opaque' and v.unk and '@unc' not in env:
+            env = dict(env)
+            env['@unc'] = OV('opaque', u(test)[:60])
+        return [(True, env), (False, env)]
 
     def block(self, stmts, env):
         """[(kind, payload, env)] with kind in fall / return / raise."""
@@ -724,13 +931,23 @@ class OptionTable:
         return outs + [('fall', None, e) for e in states]
 
     def stmt(self, s, env):
+        try:
+            return self.stmt1(s, env)
+        except _OptRaise as x:
+            return [('raise', (x.cls, s), env)]
+
+    def stmt1(self, s, env):
         if isinstance(s, ast.If):
             out = []
-            for t in self.forks(s.test, env):
-                out += self.block(s.body if t else s.orelse, dict(env))
+            for t, e2 in self.forks(s.test, env):
+                out += self.block(s.body if t else s.orelse, dict(e2))
             return out
         if isinstance(s, ast.Return):
-            return [('return', (self.ev(s.value, env) if s.value is not None else OV('none'), s), env)]
+            v = self.ev(s.value, env) if s.value is not None else OV('none')
+            if v.kind == 'opaque' and v.unk and '@unc' not in env:
+                env = dict(env)
+                env['@unc'] = OV('opaque', u(s.value)[:60])
+            return [('return', (v, s), env)]
         if isinstance(s, ast.Raise):
             rc = None
             if s.exc is not None:
@@ -748,8 +965,12 @@ class OptionTable:
                 v = self.ev(s.value, env)
                 targets = s.targets if isinstance(s, ast.Assign) else [s.target]
             for t in targets:
+                els = self.elements(v) if isinstance(t, (ast.Tuple, ast.List)) else None
                 if isinstance(t, ast.Name):
                     env[t.id] = v
+                elif els is not None and len(els) == len(t.elts) and all(isinstance(x, ast.Name) for x in t.elts):
+                    for x, xv in zip(t.elts, els):
+                        env[x.id] = xv
                 else:
                     for n in ast.walk(t):
                         if isinstance(n, ast.Name) and isinstance(n.ctx, ast.Store):
@@ -757,10 +978,13 @@ class OptionTable:
             return [('fall', None, env)]
         if isinstance(s, ast.Assert):
             out = []
-            for t in self.forks(s.test, env):
-                out.append(('fall', None, env) if t else ('raise', ('AssertionError', s), env))
+            for t, e2 in self.forks(s.test, env):
+                out.append(('fall', None, e2) if t else ('raise', ('AssertionError', s), e2))
             return out
-        if isinstance(s, (ast.Expr, ast.Pass, ast.Import, ast.ImportFrom)):
+        if isinstance(s, ast.Expr):
+            self.ev(s.value, env)
+            return [('fall', None, env)]
+        if isinstance(s, (ast.Pass, ast.Import, ast.ImportFrom)):
             return [('fall', None, env)]
         if isinstance(s, ast.Try):
             out = []
@@ -791,10 +1015,12 @@ class OptionTable:
         raise Undecided(f'{self.fi.qualname}: {type(s).__name__} statement at line {s.lineno} is outside the option-table evaluator')
 
     def outcomes(self, binding):
-        """[(kind, payload)] for one combination {param: OV}; falling off the end returns None."""
+        """[(kind, payload, uncertain)] for one combination {param: OV}; falling off the end returns None.  uncertain = text of a test
+        the domain could not evaluate although it depends on what the domain knows (both branches were followed), else None."""
         res = []
-        for kind, payload, _ in self.block(self.fi.node.body, dict(binding)):
-            res.append(('return', (OV('none'), None)) if kind == 'fall' else (kind, payload))
+        for kind, payload, env in self.block(self.fi.node.body, dict(binding)):
+            unc = env['@unc'].v if '@unc' in env else None
+            res.append(('return', (OV('none'), None), unc) if kind == 'fall' else (kind, payload, unc))
         return res
 
 
@@ -898,33 +1124,38 @@ def check_summaries(ctx):
     for kg in (False, True):
         for pg in (False, True):
             for df in (False, True):
-                binding = {kp: OV('given', kp, {kp}) if kg else OV('none'), pp: OV('given', pp, {pp}) if pg else OV('none'), 'default': OV('const', df)}
+                binding = {kp: OV('given', kp, {kp}) if kg else OV('none', None, {kp}), pp: OV('given', pp, {pp}) if pg else OV('none', None, {pp}), 'default': OV('const', df, {'default'})}
                 for extra in fk.params():
                     binding.setdefault(extra, OV('opaque', extra))
                 combos[(kg, pg, df)] = tab.outcomes(binding)
 
     def show(c, o):
-        kind, (v, st) = o
+        kind, (v, st), unc = o
         return f'-k {"given" if c[0] else "absent"}, --prefix {"given" if c[1] else "absent"}, default={c[2]}: {kind}s {v}'
 
     def site_of(outs):
         st = next((o[1][1] for o in outs if o[1][1] is not None), None)
         return fk.site(st)
-    one = [(c, o) for c, outs in combos.items() if c[0] != c[1] for o in outs]
-    bad = [(c, o) for (c, o) in one if not (o[0] == 'raise' and o[1][0] in CLICK_ERRORS)]
-    rep.add('P3', site_of([o for _, o in (bad or one)]), '-k and --prefix must be given together (exactly one given is an error)', bool(one) and not bad,
-            expected='raise click.ClickException on every path with exactly one of -k / --prefix', found=[show(c, o) for c, o in bad][:3] or 'ok', stmt='both-or-neither')
-    nonep = [(c, o) for c, outs in combos.items() if not c[0] and not c[1] for o in outs]
-    bad = [(c, o) for (c, o) in nonep if not (o[0] == 'return' and o[1][0].kind == ('default' if c[2] else 'none'))]
-    rep.add('P3', site_of([o for _, o in (bad or nonep)]), 'no explicit parameters: None (caller decides) unless the caller asked for the default', bool(nonep) and not bad,
-            expected='return DEFAULT_KMERSPEC if default else None', found=[show(c, o) for c, o in bad][:3] or 'ok', stmt='no parameters')
-    both = [(c, o) for c, outs in combos.items() if c[0] and c[1] for o in outs if o[0] == 'return']
+    gaps = []
+
+    def decide(what, pool, is_ok, expected, stmt, empty='no such path'):
+        """a deviation on a path the domain followed exactly is a violation; one that exists only beyond a test the domain could not
+        evaluate is a gap of the domain (undecided, the test named); otherwise discharged"""
+        bad = [(c, o) for (c, o) in pool if not is_ok(c, o)]
+        sure = [(c, o) for (c, o) in bad if o[2] is None]
+        if bad and not sure:
+            gaps.append(f'kspec_from_params: cannot evaluate the test `{bad[0][1][2]}` ({what})')
+            return
+        rep.add('P3', site_of([o for _, o in (sure or pool)]), what, bool(pool) and not sure, expected=expected, found=[show(c, o) for c, o in sure][:3] or ('ok' if pool else empty), stmt=stmt)
+    decide('-k and --prefix must be given together (exactly one given is an error)', [(c, o) for c, outs in combos.items() if c[0] != c[1] for o in outs],
+           lambda c, o: o[0] == 'raise' and o[1][0] in CLICK_ERRORS, 'raise click.ClickException on every path with exactly one of -k / --prefix', 'both-or-neither')
+    decide('no explicit parameters: None (caller decides) unless the caller asked for the default', [(c, o) for c, outs in combos.items() if not c[0] and not c[1] for o in outs],
+           lambda c, o: o[0] == 'return' and o[1][0].kind == ('default' if c[2] else 'none'), 'return DEFAULT_KMERSPEC if default else None', 'no parameters')
 
     def is_spec(v):
         return v.kind == 'kmerspec' and len(v.v) == 2 and v.v[0].kind == 'given' and v.v[0].v == kp and v.v[1].deps == {pp} and v.v[1].kind in ('given', 'opaque')
-    bad = [(c, o) for (c, o) in both if not is_spec(o[1][0])]
-    rep.add('P3', site_of([o for _, o in (bad or both)]), 'explicit parameters become the KmerSpec of exactly that k and prefix', bool(both) and not bad, expected=f'KmerSpec({kp}, <prefix bytes>)',
-            found=[show(c, o) for c, o in bad][:3] or ('ok' if both else 'no path returns a value'), stmt='explicit parameters')
+    decide('explicit parameters become the KmerSpec of exactly that k and prefix', [(c, o) for c, outs in combos.items() if c[0] and c[1] for o in outs if o[0] == 'return'],
+           lambda c, o: is_spec(o[1][0]), f'KmerSpec({kp}, <prefix bytes>)', 'explicit parameters', empty='no path returns a value')
     d = fk.param_default('default')
     rep.add('P3', fk.site(), 'callers get None, not silently the default, unless they ask', d is not None and is_const(d, False), expected='default=False', found=u(d), stmt='default flag')
     # signatures create
@@ -965,6 +1196,7 @@ def check_summaries(ctx):
     bad = [(e, st) for (e, st) in expl if e != st.explicit]
     rep.add('P3', fc.site(c0), 'signatures are computed with the reconciled parameters', bool(expl) and not bad, expected='calc_file_signatures(kspec, ...)',
             found=[f'computes with {e} when {where(st)}' for e, st in bad][:3] or ('ok' if expl else 'no path computes with explicit parameters'), stmt='create compute')
+    rep.require(not gaps, gaps[0] if gaps else '')
 
 def check(ctx):
     rep = ctx.rep
@@ -1018,6 +1250,23 @@ _CREATE2 = ("\tif db_params and kspec is not None:\n\t\traise click.ClickExcepti
             "\tif kspec is None:\n\t\tif db_params:\n\t\t\tctxobj = ctx.obj\n\t\t\tkspec = ctxobj.get_signatures().kmerspec\n\t\telse:\n\t\t\tkspec = DEFAULT_KMERSPEC\n")
 _GETDB = "\tdef get_database(self) -> ReferenceDatabase:\n"
 _GETSIG = "\tdef get_signatures(self):\n\t\tself.require_signatures()\n\t\treturn self.signatures\n\n"
+_IMP = "from typing import Optional, TextIO\n"
+_RECCLS = ("class SideInput(NamedTuple):\n\tids: list\n\tfiles: Optional[list]\n\tsigs: Optional[object]\n\n\t@classmethod\n\tdef from_signatures(cls, sigs):\n\t\treturn cls(sigs.ids, None, sigs)\n\n"
+           "\t@classmethod\n\tdef from_files(cls, explicit, listfile, listfile_dir):\n\t\tids, files = common.get_sequence_files(explicit, listfile, listfile_dir)\n\t\treturn cls(ids, files, None)\n\n\n")
+_QSEL = ("\tif qs is not None:\n\t\tquery_sigs = load_signatures(qs)\n\t\tquery_ids = query_sigs.ids\n\t\tquery_files = None\n\telse:\n\t\tquery_ids, query_files = common.get_sequence_files(q, ql, qdir)\n\t\tquery_sigs = None\n")
+_QREC = "\tif qs is not None:\n\t\tquery = SideInput.from_signatures(load_signatures(qs))\n\telse:\n\t\tquery = SideInput.from_files(q, ql, qdir)\n\tquery_ids, query_files, query_sigs = query\n"
+_RSEL = ("\tif rs is not None:\n\t\tref_sigs = load_signatures(rs)\n\t\tref_ids = ref_sigs.ids\n\t\tref_files = None\n\telif use_db:\n\t\tctxobj = ctx.obj  # type: common.CLIContext\n\t\tctxobj.require_signatures()\n\t\tref_sigs = ctxobj.signatures\n\t\tref_ids = ref_sigs.ids\n\t\tref_files = None\n"
+         "\telif square:\n\t\tref_ids = query_ids\n\t\tref_files = ref_sigs = None\n\telse:\n\t\tref_ids, ref_files = common.get_sequence_files(r, rl, rdir)\n\t\tref_sigs = None\n")
+_RREC = ("\tif rs is not None:\n\t\tref = SideInput.from_signatures(load_signatures(rs))\n\telif use_db:\n\t\tctxobj = ctx.obj\n\t\tctxobj.require_signatures()\n\t\tref = SideInput.from_signatures(ctxobj.signatures)\n"
+         "\telif square:\n\t\tref = SideInput(query.ids, None, None)\n\telse:\n\t\tref = SideInput.from_files(r, rl, rdir)\n\tref_ids, ref_files, ref_sigs = ref\n")
+_CMDDEC = "@cli.command(name='dist', no_args_is_help=True)\n"
+
+
+def _rec(qrec=_QREC, rrec=_RREC, cls=_RECCLS, extra=()):
+    """edits turning the six parallel locals of dist_cmd into one NamedTuple per side (first edit = (file, old, new) of the V itself)"""
+    return [(_D, _RSEL, rrec), (_D, _IMP, "from typing import Optional, TextIO, NamedTuple\n"), (_D, _CMDDEC, cls + _CMDDEC)] + list(extra)
+
+
 VARIANTS = [
     V('query -s guard removed (the repaired defect)', 'B', _Q, "\t\tif sigs.kmerspec != db.signatures.kmerspec:\n", "\t\tif False:\n", 'P1'),
     V('dist guard 1 removed', 'B', _D, _G1, "", 'P1'),
@@ -1091,4 +1340,22 @@ VARIANTS = [
     V('create restructured: the database parameters are taken whenever no options are given', 'B', _S, _CREATE, _CREATE2.replace("\t\tif db_params:\n", "\t\tif db_params or True:\n"), 'P3', also=[(_CM, _GETDB, _GETSIG + _GETDB)]),
     V('dist: database signatures through a context method, but the explicit-option check skips them', 'B', _D, "\t\tctxobj.require_signatures()\n\t\tref_sigs = ctxobj.signatures\n", "\t\tref_sigs = ctxobj.get_signatures()\n", 'P',
       also=[(_CM, _GETDB, _GETSIG + _GETDB), (_D, "\t\tif ref_sigs is not None and ref_sigs.kmerspec != kspec:", "\t\tif rs is not None and ref_sigs.kmerspec != kspec:")]),
+    # ---- third refactoring round
+    V('E: missing options counted with sum() over a comprehension of the literal pair', 'E', _CM, _KFP, "\tnmissing = sum(value is None for value in (k, prefix))\n\tif nmissing == 2:\n\t\treturn DEFAULT_KMERSPEC if default else None\n\n\tif nmissing == 1:\n"
+      "\t\traise click.ClickException('Must specify values for both -k and --prefix arguments.')\n"),
+    V('count over the pair lists k twice: a lone --prefix (or lone -k) is not reported', 'B', _CM, _KFP, "\tnmissing = sum(value is None for value in (k, k))\n\tif nmissing == 2:\n\t\treturn DEFAULT_KMERSPEC if default else None\n\n\tif nmissing == 1:\n"
+      "\t\traise click.ClickException('Must specify values for both -k and --prefix arguments.')\n", 'P3'),
+    V('count of the GIVEN options compared as if it were the missing ones', 'B', _CM, _KFP, "\tngiven = len([value for value in (k, prefix) if value is not None])\n\tif ngiven == 2:\n\t\treturn DEFAULT_KMERSPEC if default else None\n\n\tif ngiven == 1:\n"
+      "\t\traise click.ClickException('Must specify values for both -k and --prefix arguments.')\n", 'P3'),
+    V('E: prefix validated by a set test instead of try/except', 'E', _CM, "\ttry:\n\t\tvalidate_dna_seq_bytes(prefix_bytes)\n\texcept ValueError:\n\t\traise click.ClickException(f'Invalid nucleotide codes in prefix: {prefix}')\n",
+      "\tif not frozenset(b'ACGT').issuperset(prefix_bytes):\n\t\traise click.ClickException(f'Invalid nucleotide codes in prefix: {prefix}')\n"),
+    V('set test: an invalid prefix silently falls back to the default parameters', 'B', _CM, "\ttry:\n\t\tvalidate_dna_seq_bytes(prefix_bytes)\n\texcept ValueError:\n\t\traise click.ClickException(f'Invalid nucleotide codes in prefix: {prefix}')\n",
+      "\tif not frozenset(b'ACGT').issuperset(prefix_bytes):\n\t\treturn DEFAULT_KMERSPEC\n", 'P3'),
+    V('E: one NamedTuple per side with classmethod constructors; fall-back chain as next() over a generator of the loaded sources', 'E', _D, _QSEL, _QREC,
+      also=_rec(extra=[(_D, _CHAIN, "\t\tprecomputed = (sigs.kmerspec for sigs in (query_sigs, ref_sigs) if sigs is not None)\n\t\tkspec = next(precomputed, DEFAULT_KMERSPEC)\n")])),
+    V('records + next(): the generator looks at the query signatures only (default parameters although reference signatures are loaded)', 'B', _D, _QSEL, _QREC, 'P1',
+      also=_rec(extra=[(_D, _CHAIN, "\t\tprecomputed = (sigs.kmerspec for sigs in (query_sigs,) if sigs is not None)\n\t\tkspec = next(precomputed, DEFAULT_KMERSPEC)\n")])),
+    V('records: the database record is built without its signatures (explicit options never compared with the database)', 'B', _D, _QSEL, _QREC, 'P',
+      also=_rec(rrec=_RREC.replace("ref = SideInput.from_signatures(ctxobj.signatures)", "ref = SideInput(ctxobj.signatures.ids, None, None)\n\t\tdb_sigs = ctxobj.signatures"),
+                extra=[(_D, "\t\t\tref_sigs = calc_file_signatures(kspec, ref_sigfiles, progress=ref_pconf)\n", "\t\t\tref_sigs = db_sigs if use_db else calc_file_signatures(kspec, ref_sigfiles, progress=ref_pconf)\n")])),
 ]
